@@ -462,6 +462,10 @@ func genC07(r *rand.Rand, t *Trace, thorough bool) {
 	if thorough {
 		per, nh = 120, 400
 	}
+	// (0) hybrid over HNSW: reload into a fresh index, answers against the hybrid over a flat index
+	for it := 0; it < 4+nh/25; it++ {
+		runHybridHNSWDiff(r, t)
+	}
 	// (a) histories with WriteTo / reload / continuation for the exhaustive vector kinds
 	for kind := 0; kind < 4; kind++ {
 		for it := 0; it < nh; it++ {
